@@ -140,13 +140,16 @@ def _run_one(args):
                 fh.write(new)
         from check import analyse
         from tfsa.report import load_known, match_known
+        import time as _time
+        _t0 = _time.time()
         ctx, _ = analyse(prop, dst)
+        _wall = round(_time.time() - _t0, 1)
         known = load_known()
         viol = [o for o in ctx.obs if o.status == "VIOLATED" and not match_known(o, known)]
         und = [o for o in ctx.obs if o.status == "UNDECIDED"]
         floors = [f for f in ctx.floors if f[2] < f[1]]
         rules = sorted({o.rule for o in viol})
-        res = {"name": m["name"], "violated_rules": rules, "undecided": len(und) + len(floors),
+        res = {"name": m["name"], "wall_s": _wall, "violated_rules": rules, "undecided": len(und) + len(floors),
                "details": [("%s @%s: %s" % (o.rule, o.site, o.detail))[:240] for o in (viol + und)[:4]]}
         if m["expect"] in ("violated", "not-clean"):
             want = m.get("rule", prop)
